@@ -61,7 +61,7 @@ def allSafeMacros : List SafeMacro :=
 /-! ### a decidable sufficient condition for two assert lists to pass on the same inputs when `DIMS = a.len()` -/
 
 def paramIdx : Param → Nat
-  | .a => 0 | .b => 1 | .result => 2 | .value => 3
+  | .a => 0 | .b => 1 | .result => 2 | .value => 3 | .other => 4
 
 /-- replace `DIMS` by `a.len()` -/
 def substDims : LenTerm → Param
